@@ -4,7 +4,7 @@
      C01_fragment_preservation -- semantic preservation of the backend model (Back/IR.v `lower` + the AST
      twin Pres/EmitAst.v of the text emitter Back/Emit.v) with respect to the reference interpreter
      Sem/SyltSem.v (source side) and the Lua 5.3 interpreter model Lua/LuaCore.v (target side), for the
-     computable fragment Pres/Frag.v `frag` (STAGE 4d-s: int/bool/string expressions, print, definitions, assignments
+     computable fragment Pres/Frag.v `frag` (STAGE 4e: int/bool/string expressions, print, definitions, assignments
      = += -= *=, if/elif/else expressions and statements, loops with break and continue, blocks, inside
      top-level functions; the outer definitions (global values and FUNCTIONS with parameters, `start` among them, in any
      order the resolver gives them),
@@ -12,7 +12,8 @@
      early `ret e`, also from inside if-branches and loops; LOCAL FUNCTIONS in any statement list (function bodies,
      blocks, loop bodies -- every pass its own closure over its own locals --, if-branches), nested to any depth, that capture the variables of the enclosing functions, MUTABLE locals included -- the
      closure and its definer share the variable and see each other's later assignments, every activation has its
-     own locals -- called by name).  The Lua side runs the statements of the
+     own locals -- called by name, and passed BY NAME to parameters of function type, where they are called or
+     passed on: FUNCTIONS AS ARGUMENTS).  The Lua side runs the statements of the
      REAL preamble.lua (Gen/GenPreamble.v, regenerated on every run) followed by the program's statements.
    WHAT IS CHECKED AT RUN TIME, per program of the tie (tools/props/c01.py):
      * component "emit_ast": LuaParse.parse_lua Lua53 (real compiler output) = ParseOk (chunk_ast code), i.e. the
@@ -623,11 +624,77 @@ Proof.
   cbn [r_final] in Hfin. destruct (o_final _); try contradiction. reflexivity.
 Qed.
 
+(* ---- an eleventh program (stage 4e): functions as arguments -- a top-level function and a local closure over a
+   mutable local are passed to function parameters and called there; the closure changes the local of its definer
+   from inside the callee ----
+     apply :: fn f: fn int -> int, x: int -> int do f(x) + 1 end
+     twice :: fn g: fn int -> int, y: int -> int do g(g(y)) end
+     inc   :: fn a: int -> int do a + 1 end
+     start :: fn do
+       n := 10
+       add :: fn b: int -> int do n += b  n end
+       print(apply(add, 1))       -- n = 11, prints 12
+       print(twice(add, 2))       -- n = 13, then 26
+       print(n)                   -- 26
+       print(apply(inc, 5))       -- 7
+     end                                                                                          *)
+Definition tint := TImplied sp0.
+Definition tfn1 := TFn [] [tint] tint false sp0.
+Definition ex_prog11 : resolved :=
+  mkResolved
+    [mkVar 0 "print" sp0 true Const; mkVar 1 "apply" sp0 true Const; mkVar 2 "twice" sp0 true Const; mkVar 3 "inc" sp0 true Const;
+     mkVar 4 "start" sp0 true Const; mkVar 5 "== STACK ==" sp0 false Const;
+     mkVar 6 "f" sp0 false Const; mkVar 7 "x" sp0 false Const; mkVar 8 "g" sp0 false Const; mkVar 9 "y" sp0 false Const;
+     mkVar 10 "a" sp0 false Const; mkVar 11 "n" sp0 false Mutable; mkVar 12 "add" sp0 false Const; mkVar 13 "b" sp0 false Const]
+    [SExternalDefinition "print" 0 Const (TImplied sp0) sp0;
+     SDefinition "apply" 1 Const (TImplied sp0)
+       (EFunction "lambda" [("f"%string, 6%N, sp0, tfn1); ("x"%string, 7%N, sp0, tint)] tint
+          [SStatementExpression (EBinOp Add (call 6 [ERead 7 sp0]) (EInt 1 sp0) sp0) sp0] false sp0) sp0;
+     SDefinition "twice" 2 Const (TImplied sp0)
+       (EFunction "lambda" [("g"%string, 8%N, sp0, tfn1); ("y"%string, 9%N, sp0, tint)] tint
+          [SStatementExpression (call 8 [call 8 [ERead 9 sp0]]) sp0] false sp0) sp0;
+     SDefinition "inc" 3 Const (TImplied sp0)
+       (EFunction "lambda" [("a"%string, 10%N, sp0, tint)] tint
+          [SStatementExpression (EBinOp Add (ERead 10 sp0) (EInt 1 sp0) sp0) sp0] false sp0) sp0;
+     SDefinition "start" 4 Const (TImplied sp0)
+       (EFunction "lambda" [] (TImplied sp0)
+          [SDefinition "n" 11 Mutable (TImplied sp0) (EInt 10 sp0) sp0;
+           SDefinition "add" 12 Const (TImplied sp0)
+             (EFunction "lambda" [("b"%string, 13%N, sp0, tint)] tint
+                [SAssignment Add (ERead 11 sp0) (ERead 13 sp0) sp0;
+                 SStatementExpression (ERead 11 sp0) sp0] false sp0) sp0;
+           SStatementExpression (call 0 [call 1 [ERead 12 sp0; EInt 1 sp0]]) sp0;
+           SStatementExpression (call 0 [call 2 [ERead 12 sp0; EInt 2 sp0]]) sp0;
+           SStatementExpression (call 0 [ERead 11 sp0]) sp0;
+           SStatementExpression (call 0 [call 1 [ERead 3 sp0; EInt 5 sp0]]) sp0]
+          false sp0) sp0].
+
+Example C01_example11_hypotheses :
+  frag 30 ex_prog11 = true /\
+  (exists code, lower 30 ex_prog11 = Ok code) /\
+  SyltSem.run 60 ex_prog11 = mkRun ["12"; "26"; "26"; "7"]%string ODone.
+Proof. split; [vm_compute; reflexivity | split; [eexists; vm_compute; reflexivity | vm_compute; reflexivity]]. Qed.
+
+Theorem C01_functions_as_arguments_by_theorem code :
+  lower 30 ex_prog11 = Ok code ->
+  exists m, forall m', (m <= m')%nat ->
+    let out := LuaCore.run_block Lua53 m' (chunk_ast code) in
+    o_trace out = ["12"; "26"; "26"; "7"]%string /\ o_final out = FDone.
+Proof.
+  intros Hl.
+  assert (Hf : frag 30 ex_prog11 = true) by (vm_compute; reflexivity).
+  assert (Hr : SyltSem.run 60 ex_prog11 = mkRun ["12"; "26"; "26"; "7"]%string ODone) by (vm_compute; reflexivity).
+  destruct (C01_fragment_preservation 30 ex_prog11 code 60 _ Hf Hl Hr I) as (m & Hm).
+  exists m. intros m' Hle. specialize (Hm m' Hle). cbv zeta in *. destruct Hm as [Ht Hfin]. split; [exact Ht|].
+  cbn [r_final] in Hfin. destruct (o_final _); try contradiction. reflexivity.
+Qed.
+
 Print Assumptions C01_fragment_preservation.
 Print Assumptions C01_fragment_preservation_text.
 Print Assumptions C01_activations_own_locals_by_theorem.
 Print Assumptions C01_loop_iteration_closures_by_theorem.
 Print Assumptions C01_strings_by_theorem.
+Print Assumptions C01_functions_as_arguments_by_theorem.
 
 (* ---- source tie: the hand-written model behind these theorems mirrors the files below; the digests of their
    functions regenerated from /repo on this run equal the reviewed ones (coq/Doc/DocSrcDigest.v).  Any edit of
